@@ -1,0 +1,41 @@
+//go:build verif
+// +build verif
+
+package seccomp
+
+import (
+	"encoding/binary"
+
+	"github.com/elastic/go-seccomp-bpf/arch"
+)
+
+// This file is only compiled with the "verif" build tag. It gives the
+// verification harness under /verif access to unexported state. It is not
+// part of the library's API.
+
+// VerifSetArch sets the architecture a policy is compiled for.
+func VerifSetArch(p *Policy, a *arch.Info) { p.arch = a }
+
+// VerifSetByteOrder overrides the byte order used to address the halves of
+// the 64-bit syscall arguments and returns a function that restores it.
+func VerifSetByteOrder(o binary.ByteOrder) (restore func()) {
+	old := nativeEndian
+	nativeEndian = o
+	return func() { nativeEndian = old }
+}
+
+// VerifByteOrder returns the byte order in effect.
+func VerifByteOrder() binary.ByteOrder { return nativeEndian }
+
+// VerifConstants returns the unexported constants as compiled for the
+// current build target.
+func VerifConstants() map[string]uint64 {
+	return map[string]uint64{
+		"errnoEPERM":           uint64(errnoEPERM),
+		"errnoENOSYS":          uint64(errnoENOSYS),
+		"prSetNoNewPrivs":      uint64(prSetNoNewPrivs),
+		"seccompSetModeStrict": uint64(seccompSetModeStrict),
+		"seccompSetModeFilter": uint64(seccompSetModeFilter),
+		"x32SyscallMask":       uint64(x32SyscallMask),
+	}
+}
